@@ -188,7 +188,7 @@ func init() {
 		ID:       "C19",
 		MaxBatch: 600,
 		Level:    "exploration",
-		Rule: "SDK half: seeded chains of 1-5 (current, target) JSON objects without nulls (depth <= 4, arrays of primitives / objects / arrays, keys incl. '/', '~', '~0', '~1', empty, numeric and '-' keys, type changes at a path, array growth / shrink / permutation, targets that only reorder one array, numbers at the edges of the integer and float ranges); after each PatchByJSON: GetValue() JSON-equals the target, the pending list grew by one unit (one operation or one TRANSACTION announcing all of them), a second replica with its own concurrent history settled first receives the operations and reads the target wherever the patch wrote, and a twin fed with the same operations equals the patched replica; every third patch is applied as explicit JSON-patch steps through Document.Patch; unpatchable requests (invalid JSON; step lists that remove a missing key, use an unsupported step, address an array with a non-number - also after valid steps) return an error and change nothing; REST half: see the E-svc cases of this check (one case in 200 goes over HTTP through the REST gateway of the repository's server binary running as a child process: POST /api/v1/collections/{collection}/documents/{key}); " +
+		Rule: "SDK half: seeded chains of 1-5 (current, target) JSON objects without nulls (depth <= 4, arrays of primitives / objects / arrays, keys incl. '/', '~', '~0', '~1', empty, numeric and '-' keys, type changes at a path, array growth / shrink / permutation, targets that only reorder one array, numbers at the edges of the integer and float ranges); after each PatchByJSON (a third through Document.Patch with the steps computed by the harness; a quarter INSIDE a transaction body, on the handle the body receives, made on a goroutine of its own - a call that never comes back is a violation when the goroutine dump shows it waiting for the lock of the transaction it is in): GetValue() JSON-equals the target, the pending list grew by one unit (one operation or one TRANSACTION announcing all of them), a second replica with its own concurrent history settled first receives the operations and reads the target wherever the patch wrote, and a twin fed with the same operations equals the patched replica; every third patch is applied as explicit JSON-patch steps through Document.Patch; unpatchable requests (invalid JSON; step lists that remove a missing key, use an unsupported step, address an array with a non-number - also after valid steps) return an error and change nothing; REST half: see the E-svc cases of this check (one case in 200 goes over HTTP through the REST gateway of the repository's server binary running as a child process: POST /api/v1/collections/{collection}/documents/{key}); " +
 			"non-trivial = the patch needed >= 2 operations or touched a key that needs JSON-pointer escaping or changed a type; distinct = hash of the script",
 		Assumptions: []string{
 			"targets contain no null (the statement excludes them)",
